@@ -22,7 +22,7 @@ type Params struct {
 
 type Fam struct {
 	Name     string   // Coq constructor of Model.fam
-	Fns      []string // methods offered: LogPdf, LogCdf, Cdf
+	Fns      []string // methods offered: LogPdf, LogCdf, Cdf, Pdf
 	Discrete bool
 	ErrKind  string // obs constructor for a returned error
 	New      func(t ad.ScalarType, p Params) (interface{}, error)
@@ -145,14 +145,14 @@ var families = []Fam{
 			t := p.Ps[1] * math.Sqrt(2.0)
 			return []float64{-((x - p.Ps[0]) / t)}
 		}},
-	{Name: "FExponential", Fns: []string{"LogPdf", "LogCdf", "Cdf"},
+	{Name: "FExponential", Fns: []string{"LogPdf", "LogCdf", "Cdf", "Pdf"},
 		New: func(t ad.ScalarType, p Params) (interface{}, error) {
 			return nilIfErr(sd.NewExponentialDistribution(sc(t, p.Ps[0])))
 		},
 		Valid:   func(r *Rng) Params { return p1(gPos(r)) },
 		Invalid: func(r *Rng) Params { return p1(gNonPos(r)) },
 		X:       func(r *Rng, p Params) float64 { return gXcont(r, 0, math.Inf(1)) }},
-	{Name: "FLaplace", Fns: []string{"LogPdf", "LogCdf", "Cdf"},
+	{Name: "FLaplace", Fns: []string{"LogPdf", "LogCdf", "Cdf", "Pdf"},
 		New: func(t ad.ScalarType, p Params) (interface{}, error) {
 			return nilIfErr(sd.NewLaplaceDistribution(sc(t, p.Ps[0]), sc(t, p.Ps[1])))
 		},
@@ -164,7 +164,7 @@ var families = []Fam{
 			}
 			return gXcont(r, math.Inf(-1), math.Inf(1))
 		}},
-	{Name: "FPareto", Fns: []string{"LogPdf", "LogCdf", "Cdf"},
+	{Name: "FPareto", Fns: []string{"LogPdf", "LogCdf", "Cdf", "Pdf"},
 		New: func(t ad.ScalarType, p Params) (interface{}, error) {
 			return nilIfErr(sd.NewParetoDistribution(sc(t, p.Ps[0]), sc(t, p.Ps[1])))
 		},
@@ -176,7 +176,7 @@ var families = []Fam{
 			return p2(gPos(r), gNonPos(r))
 		},
 		X: func(r *Rng, p Params) float64 { return gXcont(r, p.Ps[0], math.Inf(1)) }},
-	{Name: "FGPareto", Fns: []string{"LogPdf", "LogCdf", "Cdf"},
+	{Name: "FGPareto", Fns: []string{"LogPdf", "LogCdf", "Cdf", "Pdf"},
 		New: func(t ad.ScalarType, p Params) (interface{}, error) {
 			return nilIfErr(sd.NewGParetoDistribution(sc(t, p.Ps[0]), sc(t, p.Ps[1]), sc(t, p.Ps[2])))
 		},
@@ -188,7 +188,7 @@ var families = []Fam{
 			}
 			return gXcont(r, p.Ps[0], math.Inf(1))
 		}},
-	{Name: "FGev", Fns: []string{"LogPdf", "LogCdf", "Cdf"},
+	{Name: "FGev", Fns: []string{"LogPdf", "LogCdf", "Cdf", "Pdf"},
 		New: func(t ad.ScalarType, p Params) (interface{}, error) {
 			return nilIfErr(sd.NewGevDistribution(sc(t, p.Ps[0]), sc(t, p.Ps[1]), sc(t, p.Ps[2])))
 		},
@@ -219,7 +219,7 @@ var families = []Fam{
 			}
 			return gXcont(r, math.Inf(-1), math.Inf(1))
 		}},
-	{Name: "FGamma", Fns: []string{"LogPdf", "LogCdf", "Cdf"},
+	{Name: "FGamma", Fns: []string{"LogPdf", "LogCdf", "Cdf", "Pdf"},
 		New: func(t ad.ScalarType, p Params) (interface{}, error) {
 			return nilIfErr(sd.NewGammaDistribution(sc(t, p.Ps[0]), sc(t, p.Ps[1])))
 		},
@@ -243,7 +243,7 @@ var families = []Fam{
 			}
 			return [][2]float64{{p.Ps[0], x * p.Ps[1]}}
 		}},
-	{Name: "FBeta", Fns: []string{"LogPdf"}, ErrKind: "OErrNaN",
+	{Name: "FBeta", Fns: []string{"LogPdf", "Pdf"}, ErrKind: "OErrNaN",
 		New: func(t ad.ScalarType, p Params) (interface{}, error) {
 			return nilIfErr(sd.NewBetaDistribution(sc(t, p.Ps[0]), sc(t, p.Ps[1]), p.Zs[0] == 1))
 		},
@@ -269,7 +269,7 @@ var families = []Fam{
 		Lg: func(p Params, x float64, fn string) []float64 {
 			return []float64{p.Ps[0] + p.Ps[1], p.Ps[0], p.Ps[1]}
 		}},
-	{Name: "FBinomial", Fns: []string{"LogPdf"}, Discrete: true,
+	{Name: "FBinomial", Fns: []string{"LogPdf", "Pdf"}, Discrete: true,
 		New: func(t ad.ScalarType, p Params) (interface{}, error) {
 			return nilIfErr(sd.NewBinomialDistribution(sc(t, p.Ps[0]), int(p.Zs[0])))
 		},
@@ -297,7 +297,7 @@ var families = []Fam{
 			n := float64(p.Zs[0])
 			return []float64{n + 1, x + 1, n + 1 - x}
 		}},
-	{Name: "FCategorical", Fns: []string{"LogPdf", "LogCdf", "Cdf"}, Discrete: true, ErrKind: "OErrInt",
+	{Name: "FCategorical", Fns: []string{"LogPdf", "LogCdf", "Cdf", "Pdf"}, Discrete: true, ErrKind: "OErrInt",
 		New: func(t ad.ScalarType, p Params) (interface{}, error) {
 			v := ad.NullDenseVector(t, len(p.Ps))
 			for i, x := range p.Ps {
@@ -334,14 +334,14 @@ var families = []Fam{
 			return Params{ps, nil}
 		},
 		X: func(r *Rng, p Params) float64 { return gXdisc(r, len(p.Ps)-1) }},
-	{Name: "FCauchy", Fns: []string{"LogPdf"},
+	{Name: "FCauchy", Fns: []string{"LogPdf", "Pdf"},
 		New: func(t ad.ScalarType, p Params) (interface{}, error) {
 			return nilIfErr(sd.NewCauchyDistribution(sc(t, p.Ps[0]), sc(t, p.Ps[1])))
 		},
 		Valid:   func(r *Rng) Params { return p2(gLoc(r), gPos(r)) },
 		Invalid: func(r *Rng) Params { return p2(gLoc(r), gNonPos(r)) },
 		X:       func(r *Rng, p Params) float64 { return gXcont(r, math.Inf(-1), math.Inf(1)) }},
-	{Name: "FChiSquared", Fns: []string{"LogPdf", "LogCdf", "Cdf"},
+	{Name: "FChiSquared", Fns: []string{"LogPdf", "LogCdf", "Cdf", "Pdf"},
 		New: func(t ad.ScalarType, p Params) (interface{}, error) {
 			return nilIfErr(sd.NewChiSquaredDistribution(t, p.Ps[0]))
 		},
@@ -360,7 +360,7 @@ var families = []Fam{
 			}
 			return [][2]float64{{p.Ps[0] / 2, x / 2}}
 		}},
-	{Name: "FDelta", Fns: []string{"LogPdf"},
+	{Name: "FDelta", Fns: []string{"LogPdf", "Pdf"},
 		New: func(t ad.ScalarType, p Params) (interface{}, error) {
 			return nilIfErr(sd.NewDeltaDistribution(sc(t, p.Ps[0])))
 		},
@@ -371,7 +371,7 @@ var families = []Fam{
 			}
 			return gXcont(r, p.Ps[0], math.Inf(1))
 		}},
-	{Name: "FGenGamma", Fns: []string{"LogPdf"},
+	{Name: "FGenGamma", Fns: []string{"LogPdf", "Pdf"},
 		New: func(t ad.ScalarType, p Params) (interface{}, error) {
 			return nilIfErr(sd.NewGeneralizedGammaDistribution(sc(t, p.Ps[0]), sc(t, p.Ps[1]), sc(t, p.Ps[2])))
 		},
@@ -392,7 +392,7 @@ var families = []Fam{
 		Lg: func(p Params, x float64, fn string) []float64 {
 			return []float64{p.Ps[1] / p.Ps[2]}
 		}},
-	{Name: "FGeometric", Fns: []string{"LogPdf"}, Discrete: true, ErrKind: "OErrInt",
+	{Name: "FGeometric", Fns: []string{"LogPdf", "Pdf"}, Discrete: true, ErrKind: "OErrInt",
 		New: func(t ad.ScalarType, p Params) (interface{}, error) {
 			return nilIfErr(sd.NewGeometricDistribution(sc(t, p.Ps[0])))
 		},
@@ -409,7 +409,7 @@ var families = []Fam{
 			return p1(1 + float64(r.Range(1, 8))/8)
 		},
 		X: func(r *Rng, p Params) float64 { return gXdisc(r, 12) }},
-	{Name: "FNegBinomial", Fns: []string{"LogPdf"}, Discrete: true,
+	{Name: "FNegBinomial", Fns: []string{"LogPdf", "Pdf"}, Discrete: true,
 		New: func(t ad.ScalarType, p Params) (interface{}, error) {
 			return nilIfErr(sd.NewNegativeBinomialDistribution(sc(t, p.Ps[0]), sc(t, p.Ps[1])))
 		},
@@ -427,7 +427,7 @@ var families = []Fam{
 		Lg: func(p Params, x float64, fn string) []float64 {
 			return []float64{p.Ps[0], p.Ps[0] + x, x + 1}
 		}},
-	{Name: "FPoisson", Fns: []string{"LogPdf"}, Discrete: true, ErrKind: "OErrInt",
+	{Name: "FPoisson", Fns: []string{"LogPdf", "Pdf"}, Discrete: true, ErrKind: "OErrInt",
 		New: func(t ad.ScalarType, p Params) (interface{}, error) {
 			return nilIfErr(sd.NewPoissonDistribution(sc(t, p.Ps[0])))
 		},
@@ -437,7 +437,7 @@ var families = []Fam{
 		Lg: func(p Params, x float64, fn string) []float64 {
 			return []float64{x + 1}
 		}},
-	{Name: "FPowerLaw", Fns: []string{"LogPdf", "LogCdf", "Cdf"},
+	{Name: "FPowerLaw", Fns: []string{"LogPdf", "LogCdf", "Cdf", "Pdf"},
 		New: func(t ad.ScalarType, p Params) (interface{}, error) {
 			return nilIfErr(sd.NewPowerLawDistribution(sc(t, p.Ps[0]), sc(t, p.Ps[1])))
 		},
@@ -454,7 +454,7 @@ var families = []Fam{
 			return p2(1+gPos(r), 0)
 		},
 		X: func(r *Rng, p Params) float64 { return gXcont(r, p.Ps[1], math.Inf(1)) }},
-	{Name: "FTransNormal", Fns: []string{"LogPdf"},
+	{Name: "FTransNormal", Fns: []string{"LogPdf", "Pdf"},
 		New: func(t ad.ScalarType, p Params) (interface{}, error) {
 			d, err := sd.NewNormalDistribution(sc(t, p.Ps[0]), sc(t, p.Ps[1]))
 			if err != nil {
@@ -465,7 +465,7 @@ var families = []Fam{
 		Valid:   func(r *Rng) Params { return p3(gLoc(r), gPos(r), gLoc(r)) },
 		Invalid: func(r *Rng) Params { return p3(gLoc(r), gNonPos(r), gLoc(r)) },
 		X:       func(r *Rng, p Params) float64 { return gXcont(r, math.Inf(-1), math.Inf(1)) }},
-	{Name: "FLogTransNormal", Fns: []string{"LogPdf"},
+	{Name: "FLogTransNormal", Fns: []string{"LogPdf", "Pdf"},
 		New: func(t ad.ScalarType, p Params) (interface{}, error) {
 			d, err := sd.NewNormalDistribution(sc(t, p.Ps[0]), sc(t, p.Ps[1]))
 			if err != nil {
@@ -549,6 +549,15 @@ func call(d interface{}, fn string, r ad.Scalar, x float64) (out Outcome) {
 		default:
 			return Outcome{"nosuch", 0}
 		}
+	case "Pdf":
+		switch dd := d.(type) {
+		case interface {
+			Pdf(ad.Scalar, ad.ConstScalar) error
+		}:
+			err = dd.Pdf(r, cx)
+		default:
+			return Outcome{"nosuch", 0}
+		}
 	case "Cdf":
 		switch dd := d.(type) {
 		case *sd.LaplaceDistribution:
@@ -567,6 +576,14 @@ func call(d interface{}, fn string, r ad.Scalar, x float64) (out Outcome) {
 		return Outcome{"err", 0}
 	}
 	return classify(r.GetFloat64())
+}
+
+// the method whose special-function calls fn makes (Pdf runs LogPdf)
+func sfFn(fn string) string {
+	if fn == "Pdf" {
+		return "LogPdf"
+	}
+	return fn
 }
 
 func sameOutcome(a, b Outcome) bool {
